@@ -45,9 +45,9 @@ class FakeSock:
         self.wire = b''
         self.clock = None           # FakeClock of a clk=1 case: told about every socket event
 
-    def _io_done(self):
+    def _io_done(self, script):
         if self.clock is not None:
-            self.clock.after_io()
+            self.clock.after_io(script)
 
     def _fault(self, ev):
         if self.clock is not None and ev == 'W':
@@ -75,10 +75,10 @@ class FakeSock:
             raise BlockingIOError(11, 'Resource temporarily unavailable')
         if len(ev) <= n:
             s.pop(0)
-            self._io_done()
+            self._io_done(s)
             return ev
         s[0] = ev[n:]
-        self._io_done()
+        self._io_done(s)
         return ev[:n]
 
     def recv_into(self, buf, nbytes=0, flags=0):
@@ -102,7 +102,7 @@ class FakeSock:
             raise BlockingIOError(11, 'Resource temporarily unavailable')
         k = min(ev[1], len(data))
         self.wire += data[:k]
-        self._io_done()
+        self._io_done(s)
         return k
 
     def sendall(self, data, flags=0):
@@ -129,27 +129,27 @@ class FakeClock:
     ended in Timeout without the socket having consumed it.  A call that ends without looking at the clock
     again leaves the W for the next call, whose own deadline starts after the jump."""
 
-    def __init__(self, script):
-        self.script = script
+    def __init__(self, script=None):
         self.now = 1000.0
-        self.armed = False
+        self.armed = None           # the script whose head 'W' made the clock jump during this public call
 
     # -- driven by the harness / FakeSock
     def begin_call(self):
-        self.armed = False
+        self.armed = None
 
-    def after_io(self):
-        if not self.armed and self.script and self.script[0] == 'W':
-            self.armed = True
+    def after_io(self, script):
+        if self.armed is None and script and script[0] == 'W':
+            self.armed = script
             self.now += 1e9
 
     def consumed_by_socket(self):
-        self.armed = False
+        self.armed = None
 
     def end_call(self, result):
-        if self.armed and result == 'timeout' and self.script and self.script[0] == 'W':
-            self.script.pop(0)
-        self.armed = False
+        sc = self.armed
+        if sc is not None and result == 'timeout' and sc and sc[0] == 'W':
+            sc.pop(0)
+        self.armed = None
 
     # -- the `time` module API
     def time(self):
@@ -334,6 +334,9 @@ class C12(Property):
         th = self.thorough
         # -- round 2: small, diverse, adversarial families first
         yield from self.ns_config_cases()
+        yield from self.dx_small()
+        for i in range(30000 if th else 3000):
+            yield self.dx_random(rng)
         yield from self.rx_clock_exhaustive(4 if th else 3)
         yield from self.tx_clock_exhaustive()
         yield from self.rx_multistep(rng, 6000 if th else 1500)
@@ -375,12 +378,14 @@ class C12(Property):
     def deep_cases(self, budget_s):
         rng = self.rng
         yield from self.ns_config_cases()
+        yield from self.dx_small()
         yield from self.rx_clock_exhaustive(4)
         yield from self.tx_clock_exhaustive()
         yield from self.rx_multistep(rng, 5000)
         yield from self.rx_exhaustive(5)
         yield from self.tx_exhaustive()
         while True:
+            yield self.dx_random(rng)
             yield self.duo_random(rng)
             yield self.clk_random(rng)
             yield self.fault_random(rng)
@@ -526,6 +531,8 @@ class C12(Property):
         c['script'] = ['E' if e == 'T' and (i == must or rng.random() < 0.5) else e for i, e in enumerate(sc)]
         if c['k'] == 'tx':
             c['ops'] = c['ops'] + [['f'], ['f']]
+        if rng.random() < 0.5:
+            c['nb'] = 1         # timeout=0.0: the nonblocking paths (`if not timeout`), faults from the socket only
         return c
 
     def rx_multistep(self, rng, count):
@@ -628,6 +635,83 @@ class C12(Property):
         else:
             path[-1] = ['s', ms]
         c['rcfg'] = path
+        return c
+
+    # ---- round 3: ONE BufferedSocket used in both directions, flags, nonblocking mode
+    DX_FAMS = [
+        [['R', ['u', 0, 'U', '6162']], ['S', ['b', '78']], ['R', ['p', 2]], ['S', ['s', '7980']], ['R', ['s', 1]],
+         ['S', ['f']], ['R', ['c', 'U']], ['S', ['f']]],
+        [['S', ['s', '787980']], ['R', ['s', 2]], ['S', ['f']], ['R', ['rf', 1, 2]], ['S', ['sf', '7a', 1]],
+         ['R', ['r', 1]], ['S', ['f']], ['R', ['c', 'N']]],
+        [['R', ['s', 3]], ['S', ['sa', '78']], ['R', ['s', 3]], ['S', ['b', '79']], ['R', ['m', 1]], ['S', ['f']],
+         ['R', ['c', 'U']], ['S', ['saf', '7a', 0]], ['R', ['rf', 2, 0]]],
+    ]
+
+    def dx_small(self):
+        """small exhaustive scope: streams <= 3 bytes over {a,b} x all chunkings x one fault (T / W / E) in every
+        gap x send scripts with one fault x three interleaved families"""
+        sscripts = [[], [['a', 1]], [['a', 1], 'T'], ['W', ['a', 2]], [['a', 2], 'W'], ['E'], [['a', 0], ['a', 1], 'E']]
+        for n in range(1, 4):
+            for t in itertools.product(b'ab', repeat=n):
+                stream = bytes(t)
+                for sizes in compositions(n):
+                    chunks = cut(stream, sizes)
+                    k = len(chunks)
+                    for g in range(k + 2):
+                        for fk in 'TWE':
+                            script = [hx(c) for c in chunks]
+                            if g <= k:
+                                script.insert(g, fk)
+                            elif fk != 'T':
+                                continue
+                            for si, ss in enumerate(sscripts):
+                                for fi, fam in enumerate(self.DX_FAMS):
+                                    if (n + g + si + fi + k) % 3:
+                                        continue
+                                    clk = 1 if ('W' in script or 'W' in ss) else 0
+                                    c = {'k': 'dx', 'rs': (1, 2, 64)[(g + si) % 3], 'ms': (2, 100)[(fi + k) % 2],
+                                         'rscript': script, 'sscript': ss, 'ops': fam}
+                                    if clk:
+                                        c['clk'] = 1
+                                    elif (g + fi) % 2:
+                                        c['nb'] = 1
+                                    yield c
+
+    def dx_random(self, rng):
+        a = self.rx_adversarial(rng) if rng.random() < 0.4 else self.rx_random(rng, onebyte=rng.random() < 0.2)
+        b = self.tx_random(rng)
+        rops = [['R', op] for op in a['ops']]
+        sops = [['S', op] for op in b['ops']]
+        # flags: refused calls in between (and flags=0 written out)
+        for _ in range(rng.choice([0, 1, 1, 2])):
+            rops.insert(rng.randrange(len(rops) + 1), ['R', ['rf', rng.choice([0, 1, 2, 5]), rng.choice([0, 1, 2, 64])]])
+        for _ in range(rng.choice([0, 1, 1, 2])):
+            d = hx(self.rand_stream(rng, rng.choice([0, 1, 2, 3]), b'xyz'))
+            sops.insert(rng.randrange(len(sops)) if sops else 0,
+                        ['S', [rng.choice(['sf', 'saf']), d, rng.choice([0, 1, 2, 64])]])
+        nf_r = sum(1 for e in a['script'] if is_to(e))
+        rops += [['R', ['c', 'N']]] * (1 + nf_r)
+        sops += [['S', ['f']]]
+        # interleave, keeping each direction's order
+        order = [0] * len(rops) + [1] * len(sops)
+        rng.shuffle(order)
+        ir, it, ops = iter(rops), iter(sops), []
+        for w in order:
+            ops.append(next(ir) if w == 0 else next(it))
+        mode = rng.random()
+        rs_, ss_ = list(a['script']), list(b['script'])
+        c = {'k': 'dx', 'rs': a['rs'], 'ms': a['ms'], 'ops': ops}
+        if mode < 0.4:
+            rs_ = ['W' if e == 'T' and rng.random() < 0.6 else e for e in rs_]
+            ss_ = ['W' if e == 'T' and rng.random() < 0.6 else e for e in ss_]
+            if 'W' in rs_ or 'W' in ss_:
+                c['clk'] = 1
+        elif mode < 0.7:
+            rs_ = ['E' if e == 'T' and rng.random() < 0.6 else e for e in rs_]
+            ss_ = ['E' if e == 'T' and rng.random() < 0.6 else e for e in ss_]
+            if rng.random() < 0.5:
+                c['nb'] = 1
+        c['rscript'], c['sscript'] = rs_, ss_
         return c
 
     def rand_stream(self, rng, n, alpha):
@@ -900,32 +984,46 @@ class C12(Property):
     def _ms_eff(cls, case):
         return cls._rcfg(case)[-1][1]
 
+    @staticmethod
+    def _rx_tok(op):
+        if op[0] in ('r', 'p', 's'):
+            return '%s%d' % (op[0], op[1])
+        if op[0] == 'u':
+            return 'u%d:%s:%s' % (op[1], op[2], op[3])
+        if op[0] == 'c':
+            return 'c%s' % op[1]
+        if op[0] == 'm':
+            return 'm%d' % op[1]
+        if op[0] == 'rf':
+            return 'F%d:%d' % (op[1], op[2])        # dx only
+        raise InfraError('bad rx op %r' % (op,))
+
+    @staticmethod
+    def _tx_tok(op):
+        if op[0] in ('s', 'sa'):
+            return 's' + op[1]
+        if op[0] == 'b':
+            return 'b' + op[1]
+        if op[0] in ('sf', 'saf'):
+            return 'F%s:%d' % (op[1], op[2])        # dx only
+        return 'f'
+
     def line(self, case):
         k = case['k']
         if k == 'rx':
             if case['rs'] < 1:
                 return None
-            toks = ['rx', str(case['rs']), str(case['ms']), str(case['retry']), self._script_tok(case['script'])]
-            for op in case['ops']:
-                if op[0] in ('r', 'p', 's'):
-                    toks.append('%s%d' % (op[0], op[1]))
-                elif op[0] == 'u':
-                    toks.append('u%d:%s:%s' % (op[1], op[2], op[3]))
-                elif op[0] == 'c':
-                    toks.append('c%s' % op[1])
-                elif op[0] == 'm':
-                    toks.append('m%d' % op[1])
-            return ' '.join(toks)
+            return ' '.join(['rx', str(case['rs']), str(case['ms']), str(case['retry']),
+                             self._script_tok(case['script'])] + [self._rx_tok(op) for op in case['ops']])
         if k == 'tx':
-            toks = ['tx', self._sscript_tok(case['script'])]
-            for op in case['ops']:
-                if op[0] in ('s', 'sa'):
-                    toks.append('s' + op[1])
-                elif op[0] == 'b':
-                    toks.append('b' + op[1])
-                else:
-                    toks.append('f')
-            return ' '.join(toks)
+            return ' '.join(['tx', self._sscript_tok(case['script'])] + [self._tx_tok(op) for op in case['ops']])
+        if k == 'dx':
+            if case['rs'] < 1:
+                return None
+            return ' '.join(['dx', str(case['rs']), str(case['ms']), self._script_tok(case['rscript']),
+                             self._sscript_tok(case['sscript'])] +
+                            [side + (self._rx_tok(op) if side == 'R' else self._tx_tok(op))
+                             for side, op in case['ops']])
         if k == 'ns':
             return ' '.join(['ns', str(case['ms']), self._sscript_tok(case['wscript']),
                              ','.join(map(str, case['cuts'])) or '-', str(case['nreads']), self._rcfg_tok(case)]
@@ -953,6 +1051,8 @@ class C12(Property):
             return {} if m == 'U' else {'maxsize': None} if m == 'N' else {'maxsize': m}
         if op[0] == 'r':
             return bs.recv(op[1])
+        if op[0] == 'rf':
+            return bs.recv(op[1], op[2])
         if op[0] == 'p':
             return bs.peek(op[1])
         if op[0] == 's':
@@ -975,6 +1075,72 @@ class C12(Property):
             pass
         return out
 
+    def _do_rx(self, bs, op, rec, clock, clk, ms):
+        """one receive-side public call on `bs`; the outcome goes into rec['r'] / rec['v']"""
+        clock.begin_call()
+        try:
+            with (patched_clock(clock) if clk else nullctx()):
+                if op[0] == 'm':
+                    v = bs.setmaxsize(op[1])
+                    rec['r'] = 'none' if v is None else 'exc:ret'
+                else:
+                    v = self._call_rx(bs, op, ms)
+                    rec['r'] = 'ok'
+                    rec['v'] = (hx(bytes(v)) if isinstance(v, (bytes, bytearray))
+                                else 'nonbytes:%s' % type(v).__name__)
+                    if not isinstance(v, bytes):
+                        self._live.append((v, rec))      # a mutable return value must not change later
+        except CaseTimeout:
+            raise
+        except Exception as e:
+            rec['r'] = EXC.get(exc_name(e), 'exc:' + exc_name(e))
+            if op[0] == 'rf' and op[2] != 0 and exc_name(e) == 'ValueError':
+                rec['r'] = 'valueerror'
+        clock.end_call(rec['r'])
+
+    def _do_tx(self, bs, op, rec, clock, clk):
+        """one send-side public call on `bs`"""
+        clock.begin_call()
+        try:
+            with (patched_clock(clock) if clk else nullctx()):
+                if op[0] == 's':
+                    v = bs.send(unhx(op[1]))
+                elif op[0] == 'sa':
+                    v = bs.sendall(unhx(op[1]))
+                elif op[0] == 'sf':
+                    v = bs.send(unhx(op[1]), op[2])
+                elif op[0] == 'saf':
+                    v = bs.sendall(unhx(op[1]), op[2])
+                elif op[0] == 'b':
+                    v = bs.buffer(unhx(op[1]))
+                else:
+                    v = bs.flush()
+            rec['r'] = 'none' if v is None else 'sent:%d' % v if isinstance(v, int) else 'ret:%r' % (v,)
+        except CaseTimeout:
+            raise
+        except Exception as e:
+            rec['r'] = EXC.get(exc_name(e), 'exc:' + exc_name(e))
+            if op[0] in ('sf', 'saf') and op[2] != 0 and exc_name(e) == 'ValueError':
+                rec['r'] = 'valueerror'
+        clock.end_call(rec['r'])
+
+    @staticmethod
+    def _tmo(case):
+        """the BufferedSocket timeout of a case: 1000.0 under the scripted clock, 0.0 = nonblocking (nb=1:
+        faults then come from the socket only, the code takes its `if not timeout` paths), else None"""
+        return CLK_TIMEOUT if case.get('clk') else 0.0 if case.get('nb') else None
+
+    def _check_live(self, out):
+        """return values that are not immutable bytes: still the value that was returned?"""
+        for v, rec in self._live:
+            try:
+                now = hx(bytes(v))
+            except Exception:
+                now = 'unreadable'
+            if now != rec.get('v'):
+                rec['v'] = 'nonbytes:changed-after-return(%s->%s)' % (rec.get('v'), now)
+        self._live = []
+
     def step_rx(self, case, out):
         """generator: performs one op of the case (with its retries) per step, appending records to `out`"""
         from boltons.socketutils import BufferedSocket
@@ -983,28 +1149,13 @@ class C12(Property):
         clock = FakeClock(fs.rscript)
         if clk:
             fs.clock = clock
-        bs = BufferedSocket(fs, timeout=CLK_TIMEOUT if clk else None, maxsize=case['ms'], recvsize=case['rs'])
+        bs = BufferedSocket(fs, timeout=self._tmo(case), maxsize=case['ms'], recvsize=case['rs'])
         tries = 1 + (sum(1 for e in case['script'] if is_to(e)) if case['retry'] else 0)
         for i, op in enumerate(case['ops']):
             yield
             for _ in range(tries):
                 rec = {'op': i}
-                clock.begin_call()
-                try:
-                    with (patched_clock(clock) if clk else nullctx()):
-                        if op[0] == 'm':
-                            v = bs.setmaxsize(op[1])
-                            rec['r'] = 'none' if v is None else 'exc:ret'
-                        else:
-                            v = self._call_rx(bs, op, case['ms'])
-                            rec['r'] = 'ok'
-                            rec['v'] = (hx(bytes(v)) if isinstance(v, (bytes, bytearray))
-                                        else 'nonbytes:%s' % type(v).__name__)
-                except CaseTimeout:
-                    raise
-                except Exception as e:
-                    rec['r'] = EXC.get(exc_name(e), 'exc:' + exc_name(e))
-                clock.end_call(rec['r'])
+                self._do_rx(bs, op, rec, clock, clk, case['ms'])
                 rb = bs.getrecvbuffer()
                 rec['rbuf'] = hx(bytes(rb)) if isinstance(rb, (bytes, bytearray)) else 'nonbytes'
                 rec['und'] = hx(fs.undelivered())
@@ -1019,27 +1170,11 @@ class C12(Property):
         clock = FakeClock(fs.sscript)
         if clk:
             fs.clock = clock
-        bs = BufferedSocket(fs, timeout=CLK_TIMEOUT if clk else None)
+        bs = BufferedSocket(fs, timeout=self._tmo(case))
         for i, op in enumerate(case['ops']):
             yield
             rec = {'op': i}
-            clock.begin_call()
-            try:
-                with (patched_clock(clock) if clk else nullctx()):
-                    if op[0] == 's':
-                        v = bs.send(unhx(op[1]))
-                    elif op[0] == 'sa':
-                        v = bs.sendall(unhx(op[1]))
-                    elif op[0] == 'b':
-                        v = bs.buffer(unhx(op[1]))
-                    else:
-                        v = bs.flush()
-                rec['r'] = 'none' if v is None else 'sent:%d' % v if isinstance(v, int) else 'ret:%r' % (v,)
-            except CaseTimeout:
-                raise
-            except Exception as e:
-                rec['r'] = EXC.get(exc_name(e), 'exc:' + exc_name(e))
-            clock.end_call(rec['r'])
+            self._do_tx(bs, op, rec, clock, clk)
             rec['sbuf'] = hx(bytes(bs.getsendbuffer()))
             rec['wire'] = hx(fs.wire)
             rec['left'] = sum(1 for e in fs.sscript if is_to(e))
@@ -1070,6 +1205,32 @@ class C12(Property):
                 return {'recs': recs, 'left': recs[-1]['left'] if recs else sum(1 for e in c['script'] if is_to(e))}
             return {'recs': recs}
         return {'a': sub(case['a'], outs[0]), 'b': sub(case['b'], outs[1])}
+
+    def run_dx(self, case):
+        """ONE BufferedSocket over one scripted socket; receive-side and send-side calls interleaved, one
+        attempt each; after every call all four observables are recorded"""
+        from boltons.socketutils import BufferedSocket
+        fs = FakeSock(self._rscript(case['rscript']), self._sscript(case['sscript']))
+        clk = case.get('clk')
+        clock = FakeClock()
+        if clk:
+            fs.clock = clock
+        bs = BufferedSocket(fs, timeout=self._tmo(case), maxsize=case['ms'], recvsize=case['rs'])
+        out = []
+        for i, (side, op) in enumerate(case['ops']):
+            rec = {'op': i}
+            if side == 'R':
+                self._do_rx(bs, op, rec, clock, clk, case['ms'])
+            else:
+                self._do_tx(bs, op, rec, clock, clk)
+            rb = bs.getrecvbuffer()
+            rec['rbuf'] = hx(bytes(rb)) if isinstance(rb, (bytes, bytearray)) else 'nonbytes'
+            rec['und'] = hx(fs.undelivered())
+            rec['sbuf'] = hx(bytes(bs.getsendbuffer()))
+            rec['wire'] = hx(fs.wire)
+            rec['left'] = sum(1 for e in fs.sscript if is_to(e))
+            out.append(rec)
+        return out
 
     @classmethod
     def _mk_ns(cls, fake, case):
@@ -1148,10 +1309,17 @@ class C12(Property):
 
     def impl(self, case):
         k = case['k']
+        self._live = []
         try:
             with time_limit(10):
+                if k == 'dx':
+                    recs = self.run_dx(case)
+                    self._check_live(recs)
+                    return {'recs': recs, 'left': recs[-1]['left'] if recs else
+                            sum(1 for e in case['sscript'] if is_to(e))}
                 if k == 'rx':
                     obs = {'recs': self.run_rx(case)}
+                    self._check_live(obs['recs'])
                     if case['retry'] and not any(op[0] == 'r' for op in case['ops']):
                         # "as when the whole stream arrives at once": the same calls, one chunk, no timeout
                         stream = b''.join(unhx(e) for e in case['script'] if not is_to(e))
@@ -1163,7 +1331,9 @@ class C12(Property):
                     return {'recs': recs, 'left': recs[-1]['left'] if recs else
                             sum(1 for e in case['script'] if is_to(e))}
                 if k == 'duo':
-                    return self.run_duo(case)
+                    obs = self.run_duo(case)
+                    self._check_live(None)
+                    return obs
                 if k == 'ns':
                     return self.run_ns(case)
                 if k == 'nsr':
@@ -1197,6 +1367,11 @@ class C12(Property):
         if k == 'tx':
             return '%s #%d' % (';'.join('%s/%s/%s' % (r['r'], r['sbuf'], r['wire']) for r in obs['recs']) or '-',
                                obs.get('left', 0))
+        if k == 'dx':
+            def one(r):
+                return 'ok:' + r['v'] if r['r'] == 'ok' else r['r']
+            return '%s #%d' % (';'.join('%s/%s/%s/%s' % (one(r), r['rbuf'], r['sbuf'], r['wire'])
+                                        for r in obs['recs']) or '-', obs.get('left', 0))
         if k == 'ns':
             return 'W:%s;%s;%s' % (','.join(obs['w']), obs['wire'], ','.join(obs['r']))
         if k == 'nsr':
@@ -1220,6 +1395,8 @@ class C12(Property):
             return self.oracle_ns(case, obs)
         if k == 'nsr':
             return self.oracle_nsr(case, obs)
+        if k == 'dx':
+            return self.oracle_dx(case, obs)
         if k == 'duo':
             # each socket must behave exactly as if the other one did not exist
             nt = False
@@ -1231,6 +1408,25 @@ class C12(Property):
                 nt = nt or self._nt
             self._nt = nt
             return None
+        return None
+
+    def oracle_dx(self, case, obs):
+        """one object, both directions: each direction is judged by its own oracle on the whole record list,
+        the calls of the other direction standing in as foreign calls ('x') that must neither hand over nor
+        accept a byte - so conservation of BOTH directions is checked after EVERY call of either"""
+        ops = case['ops']
+        rx_case = {'k': 'rx', 'rs': case['rs'], 'ms': case['ms'], 'retry': 0, 'script': case['rscript'],
+                   'ops': [op if side == 'R' else ['x'] for side, op in ops]}
+        tx_case = {'k': 'tx', 'script': case['sscript'], 'ops': [op if side == 'S' else ['x'] for side, op in ops]}
+        f = self.oracle_rx(rx_case, obs)
+        nt = self._nt
+        if f is None:
+            f = self.oracle_tx(tx_case, obs)
+            nt = nt or self._nt
+        if f is not None:
+            return Failure(f.tag, 'one BufferedSocket used in both directions: %s' % f.what)
+        both = any(side == 'R' for side, _ in ops) and any(side == 'S' for side, _ in ops)
+        self._nt = bool(nt and both)
         return None
 
     @staticmethod
@@ -1279,13 +1475,21 @@ class C12(Property):
         for rec in obs['recs']:
             op = case['ops'][rec['op']]
             r = rec['r']
-            self.bump('rx_%s_%s' % (op[0], r if not r.startswith('exc:') else 'exc'))
-            if r.startswith('exc:') or (r == 'ok' and rec['v'].startswith('nonbytes')):
+            if op[0] != 'x':
+                self.bump('rx_%s_%s' % (op[0], r if not r.startswith('exc:') else 'exc'))
+            if op[0] != 'x' and (r.startswith('exc:') or r.startswith('ret:') or
+                                 (r == 'ok' and rec['v'].startswith('nonbytes'))):
                 return Failure('raises', '%r raised/returned %s' % (op, r if r != 'ok' else rec['v']))
             if rec['rbuf'] == 'nonbytes':
                 return Failure('raises', 'getrecvbuffer() is not bytes')
             rbuf, und = unhx(rec['rbuf']), unhx(rec['und'])
-            if op[0] == 'm':
+            if op[0] == 'rf' and op[2] == 0:
+                op = ['r', op[1]]
+            if op[0] == 'x':
+                consumed = b''          # a send-side call on the same object: hands over nothing
+            elif op[0] == 'rf' and r == 'valueerror':
+                consumed = b''          # refused for its flags: nothing may have moved
+            elif op[0] == 'm':
                 if r != 'none':
                     return Failure('raises', 'setmaxsize -> %s' % r)
                 cur_ms = op[1]
@@ -1301,7 +1505,8 @@ class C12(Property):
                 if seen_e > n_e:
                     return Failure('raises', '%r raised an OSError the socket did not raise' % (op,))
                 consumed = b''
-            elif op[0] == 'r':
+            elif op[0] in ('r', 'rf'):
+                # (recv with non-zero flags that is not refused is held to the contract of recv)
                 if r != 'ok':
                     return Failure('recv', 'recv(%d) raised %s' % (op[1], r))
                 v = unhx(rec['v'])
@@ -1356,12 +1561,31 @@ class C12(Property):
         for rec in obs['recs']:
             op = case['ops'][rec['op']]
             r = rec['r']
+            sbuf, wire = unhx(rec['sbuf']), unhx(rec['wire'])
+            if op[0] == 'x':
+                # a receive-side call on the same object: accepts nothing, sends nothing
+                if wire != prev_wire or wire + sbuf != accepted:
+                    return Failure('send-conservation', 'a receive-side call changed the send side: wire %r + send '
+                                   'buffer %r, accepted %r, wire before %r' % (wire, sbuf, accepted, prev_wire))
+                continue
             self.bump('tx_%s_%s' % (op[0], r.split(':')[0]))
             if r.startswith('exc:') or r.startswith('ret:'):
                 return Failure('raises', '%r -> %s' % (op, r))
+            if op[0] in ('sf', 'saf'):
+                if op[2] == 0:
+                    op = [op[0][:-1], op[1]]
+                elif r == 'valueerror':
+                    # refused for its flags: nothing is sent; whether the refused data counts as accepted the
+                    # statement does not say - but it must not be half-accepted
+                    if wire != prev_wire or wire + sbuf not in (accepted, accepted + unhx(op[1])):
+                        return Failure('send-conservation', '%r refused with ValueError: wire %r + send buffer %r, '
+                                       'accepted before %r' % (op, wire, sbuf, accepted))
+                    accepted = wire + sbuf
+                    continue
+                else:
+                    op = [op[0][:-1], op[1]]        # flags taken: held to the contract of send
             if op[0] != 'f':
                 accepted += unhx(op[1])
-            sbuf, wire = unhx(rec['sbuf']), unhx(rec['wire'])
             if not wire.startswith(prev_wire):
                 return Failure('send-conservation', 'bytes already on the wire changed: %r -> %r' % (prev_wire, wire))
             if wire + sbuf != accepted:
@@ -1490,10 +1714,29 @@ class C12(Property):
                 yield dict(case, order=sorted(case['order']))
                 yield dict(case, order=sorted(case['order'], reverse=True))
             return
+        if k == 'dx':
+            ops = case['ops']
+            for i in range(len(ops)):
+                yield dict(case, ops=ops[:i] + ops[i + 1:])
+            for key in ('rscript', 'sscript'):
+                sc = case[key]
+                for i in range(len(sc)):
+                    yield dict(case, **{key: sc[:i] + sc[i + 1:]})
+            if case.get('clk'):
+                yield dict(case, clk=0, rscript=['T' if e == 'W' else e for e in case['rscript']],
+                           sscript=['T' if e == 'W' else e for e in case['sscript']])
+            if case.get('nb'):
+                yield dict(case, nb=0)
+            # one direction alone
+            yield dict(case, ops=[o for o in ops if o[0] == 'R'])
+            yield dict(case, ops=[o for o in ops if o[0] == 'S'])
+            return
         if k in ('rx', 'tx'):
             ops = case['ops']
             for i in range(len(ops)):
                 yield dict(case, ops=ops[:i] + ops[i + 1:])
+            if case.get('nb'):
+                yield dict(case, nb=0)
             if case.get('clk'):
                 # the same schedule with socket timeouts instead of wall-clock expiries
                 yield dict(case, clk=0, script=['T' if e == 'W' else e for e in case['script']])
